@@ -198,16 +198,16 @@ class Rig:
                     auth_private_key=self.client_key_file if auth in ("key", "both") else "",
                     auth_strict_key=strict, ssh_known_hosts_file=kh)
 
-    def _base(self):
+    def _base(self, unpin=False):
         from scrapli.transport.base import BaseTransportArgs
-        return BaseTransportArgs(transport_options={}, host=HOST, port=self.port, timeout_socket=10,
+        return BaseTransportArgs(transport_options={"asyncssh": {"known_hosts": None}} if unpin else {}, host=HOST, port=self.port, timeout_socket=10,
                                  timeout_transport=10, logging_uid="")
 
-    def run_paramiko(self, auth, strict, kh):
+    def run_paramiko(self, auth, strict, kh, unpin=False):
         """-> (outcome, events seen by the server for this case's user)"""
         from scrapli.transport.plugins.paramiko.transport import ParamikoTransport, PluginTransportArgs
         user = self.next_user()
-        t = ParamikoTransport(self._base(), PluginTransportArgs(**self._args(auth, user, strict, kh)))
+        t = ParamikoTransport(self._base(unpin), PluginTransportArgs(**self._args(auth, user, strict, kh)))
         try:
             t.open()
             out = "ok"
@@ -223,10 +223,10 @@ class Rig:
                 pass
         return out, self._settle(user)
 
-    async def run_asyncssh(self, auth, strict, kh):
+    async def run_asyncssh(self, auth, strict, kh, unpin=False):
         from scrapli.transport.plugins.asyncssh.transport import AsyncsshTransport, PluginTransportArgs
         user = self.next_user()
-        t = AsyncsshTransport(self._base(), PluginTransportArgs(**self._args(auth, user, strict, kh)))
+        t = AsyncsshTransport(self._base(unpin), PluginTransportArgs(**self._args(auth, user, strict, kh)))
         try:
             await t.open()
             out = "ok"
@@ -252,8 +252,12 @@ class Rig:
         base.timeout_socket = 5
         t = ParamikoTransport(base, PluginTransportArgs(**self._args(auth, user, strict, kh)))
         res, n = [], 0
+        olds = []
         try:
             for att in attempts:
+                if att.get("new"):
+                    olds.append(t)
+                    t = ParamikoTransport(base, PluginTransportArgs(**self._args(auth, user, strict, kh)))
                 if att.get("close"):
                     try:
                         t.close()
@@ -269,13 +273,14 @@ class Rig:
                 seen, n = self._delta(user, n)
                 res.append((out, seen))
         finally:
-            try:
-                if t.session:
-                    t.session.close()
-                if t.socket:
-                    t.socket.close()
-            except Exception:
-                pass
+            for x in olds + [t]:
+                try:
+                    if x.session:
+                        x.session.close()
+                    if x.socket:
+                        x.socket.close()
+                except Exception:
+                    pass
         return res
 
     async def history_asyncssh(self, auth, strict, kh, attempts):
@@ -283,8 +288,12 @@ class Rig:
         user = self.next_user()
         t = AsyncsshTransport(self._base(), PluginTransportArgs(**self._args(auth, user, strict, kh)))
         res, n = [], 0
+        olds = []
         try:
             for att in attempts:
+                if att.get("new"):
+                    olds.append(t)
+                    t = AsyncsshTransport(self._base(), PluginTransportArgs(**self._args(auth, user, strict, kh)))
                 if att.get("close"):
                     try:
                         t.close()
@@ -301,10 +310,11 @@ class Rig:
                 seen, n = self._delta(user, n)
                 res.append((out, seen))
         finally:
-            try:
-                t.close()
-            except Exception:
-                pass
+            for x in olds + [t]:
+                try:
+                    x.close()
+                except Exception:
+                    pass
         return res
 
     def _settle(self, user):
